@@ -24,6 +24,7 @@ TraceInit ==
 
 Match(a) ==
     CASE a.op = "rename_column" -> RenameColumn(a.args[1], a.args[2])
+      [] a.op = "rename_columns" -> RenameColumns(a.args[1], a.args[2])
       [] a.op = "delete_column" -> DeleteColumn(a.args[1])
       [] a.op = "set_surface" -> SetSurface(a.args[1], a.args[2])
       [] a.op = "split_column" -> SplitColumn(a.args[1], a.args[2], a.args[3])
